@@ -507,11 +507,12 @@ func runCase(cs *Case, ci int, pty *ptyPair, em *emu, home string) (alive bool) 
 
 	snap := func() map[string]any {
 		bp, ep := rl.Selection().Pos()
+		_, regsel := rl.Buffers.IsSelected()
 		m := map[string]any{
 			"c": cs.ID, "s": curSess, "line": ints(*rl.Line()), "cur": rl.Cursor().Pos(), "main": string(rl.Keymap.Main()),
 			"local": string(rl.Keymap.Local()), "sel": []int{bp, ep}, "selact": rl.Selection().Active(),
 			"upos": rl.History.Pos(), "kill": ints(rl.Buffers.GetKill()), "rega": ints(rl.Buffers.Get('a')), "rec": rl.Macros.Recording(),
-			"argset": rl.Iterations.IsSet(), "mark": rl.Cursor().Mark(), "minibuf": rl.Line() != mainLine,
+			"argset": rl.Iterations.IsSet(), "regsel": regsel, "mark": rl.Cursor().Mark(), "minibuf": rl.Line() != mainLine,
 		}
 		return m
 	}
